@@ -4,6 +4,10 @@ import json, os
 ROOT = os.path.dirname(os.path.dirname(os.path.abspath(__file__)))
 
 CHECKS = {
+ 'C10': dict(level='exploration', design='DESIGN.md §5 C10',
+   technique='z3 sequence/regex-theory lemmas generated from the live parser regex objects (whitespace closure, comment/continuation invariance, separator and parameter-split languages; sat candidates replayed through parse_script) plus CrossHair-chosen layout rewrites of a marked corpus',
+   text='For every line-level statement pattern of the live parser z3 decides, for all ASCII lines up to the length bound and all blank prefixes/suffixes, that classification is closed under re-indentation and trailing blanks; four further language lemmas cover comments, continuation backslashes, the line separator and parameter splitting. Each sat answer is replayed through parse_script (only a changed parse is a violation). CrossHair additionally chooses CRLF/LF, chunking, indentation, trailing blanks, inserted blank/comment lines and the continuation gap on two marked programs that contain every statement kind (solver-driven enumeration, stated as such).',
+   note='Trusted: z3 string theory, the rx2z3 translator (validated on sample lines each run), CrossHair. Symbolic source text cannot reach the regex-driven parser: arbitrary-text invariance is outside the claim.'),
  'C12': dict(level='exploration', design='DESIGN.md §5 C12',
    technique='CrossHair symbolic execution of the real library call wrapper twice per symbolic integral n (int spelling vs float spelling from a table indexed by n), z3 decides the case split; results, failure behaviour and post-call arguments compared',
    text='For every numeric parameter of every library function that has one (read from the live argument models), and for numbers flowing as plain values through operators, stringification, JSON and value-taking functions, the call is executed with all numbers spelled as ints and as floats for a symbolic integral n over the parameter range; confirmed means result, failure value, debug log count and post-call argument state agree for every n in the range.',
